@@ -315,7 +315,11 @@ def compare(inp: dict, rep: dict, style: str, path: str = "$", location: str = "
             # alternatives are matched greedily by fewest differences
             left = list(ra)
             for a in ia:
-                best = min(left, key=lambda r: len(compare(a, r, style, path + "|", location, True)))
+                def cost(r):
+                    same_kind = a["k"] == r["k"] and a.get("type") == r.get("type")
+                    return (0 if same_kind else 1000) + len(compare(a, r, style, path + "|", location, True))
+
+                best = min(left, key=cost)
                 out += compare(a, best, style, path + "|", location, True)
                 left.remove(best)
     return out
